@@ -7,6 +7,16 @@ import importlib
 
 CLAIMED = {
  # id: (technique, level_note, design_ref)
+ 'C09': ('symbolic interpreter of the writers + size algebra: emission sequences parsed into Fortran records, marker == payload as polynomial identity; pad stores vs dtype-literal byte sums; record-kind sequence vs reader record; shared slot/cell-count rules',
+         'Decides: for 7 CAMx writers and writeline, every record has equal markers whose value is the payload byte count for all sizes and the sequence tiles into records; SPAD/EPAD pads (CAMx, landuse key, bpch) equal the bracketed bytes; '
+         'per-layer record pieces match the reader record; header dates/cell counts agree with content; met readers detect time steps with the full identifier. Undecided (listed): wind LSTAGGER size, records copied from a reader, land-use data pads. '
+         'Not decided: that an independent decoder recovers the content, reference-encoder -> reader direction.', '4/C09'),
+ 'C13': ('struct-format expansion vs dtype-literal layouts, identifier-window extraction, slot-consistency of the layer count, stride constants derived from the writer record sizes, finite case analysis of time normalisation',
+         'Decides: uamiv record formats and memmap layouts are one word sequence; met readers agree on the two identifier words; step detection uses the full identifier; uamiv record offsets use one layer count; wind per-step stride = '
+         'padded time header + dummy record size the writer emits; timeadd normalises into [0, eod); record readers use existing numpy APIs. Not decided: termination and data equality of both readers for every file.', '4/C13'),
+ 'C18': ('dtype-literal evaluator with byte offsets across reader/writer/second reader, inverse-relation and mirrored-branch checks, provenance check that the writer leaves its input untouched, row-aliasing lint, lookup-preference template',
+         'Decides: block layouts agree in all three implementations; positional reader fields sit at the writer named fields; scale applied/removed on mirrored branches with key id + offset and a new array; tracer-table rows are fresh dicts; '
+         'second reader prefers the offset row; pads; numpy API incl. dtype strings from plain integers. Not decided: byte identity of a rewrite, multi-block strides.', '4/C18'),
  'C08': ('dtype-literal evaluator + size algebra: writer/reader header layout comparison, inverse-relation check of header field <-> attribute/dimension maps, slot-pairing rules for begin/end flags, sibling table agreement, installed-numpy API resolution',
          'Decides: uamiv / lateral_boundary / landuse record layouts agree between Write.py and Memmap.py; every header field filled from an attribute or dimension is read back into the same one; '
          'begin/end date-time fields are paired within their slot (also at roll-over); boundary edge/cell-count and cloud/rain variable-order tables agree; writers and readers use only existing numpy APIs. '
